@@ -193,7 +193,7 @@ Definition strv_concat (a : option (list str)) (b : option (list str))
   let lb := match b with Some l => l | None => [] end in
   let size := 1 + zlen la + zlen lb in
   let* arr := sys_calloc size SIZEOF_CHARP in
-  if arr =? 0 then ret None else     (* finish: c(0) < size, r NULL: STRV_FOREACH over NULL; free(NULL) *)
+  if arr =? 0 then sys_free 0 ;> ret None else     (* finish: c(0) < size, r NULL: STRV_FOREACH over NULL; free(NULL) *)
   let* d := dup_all (la ++ lb) [] in
   match d with
   | None => sys_free arr ;> ret None
